@@ -94,6 +94,7 @@ pub fn gen_cases(prop: &str, tier: &str, seed: u64, rep: &mut Report) -> Vec<Emi
         let doc = g.spec();
         let mut features = g.features.clone();
         if i % 5 == 3 { features.push("regenerated_with_marker".to_string()); }
+        if i % 5 == 1 { features.push("regenerated_over_an_earlier_revision".to_string()); }
         cases.push(EmitCase { label: format!("(generated seed={seed} index={i} cfg={})", quote(&format!("{:?}", cfg))), doc, cfg, features });
     }
     cases
@@ -109,6 +110,15 @@ pub fn run_real(c: &EmitCase) -> Result<Emitted, String> {
     let spec = parse_spec(&text, true)?;
     let h = real_extract(&spec)?;
     let d = fresh_dir("emit");
+    // a share of the crates is generated into a directory that holds the crate of an earlier revision of the service's
+    // document: more operations and models (longer index files), one serde adapter, examples
+    if c.features.iter().any(|f| f == "regenerated_over_an_earlier_revision") {
+        if let Ok(prev) = parse_spec(&serde_json::to_string(&earlier_revision()).unwrap(), true) {
+            let mut pcfg = c.cfg.clone();
+            pcfg.examples = true;
+            let _ = generate(&prev, &pcfg, &d);
+        }
+    }
     let mut r = generate(&spec, &c.cfg, &d);
     // regeneration over a hand-edited lib.rs (text above the documented marker is the user's): part of every
     // crate's life, so a share of the cases is taken through it
@@ -133,6 +143,25 @@ pub fn run_real(c: &EmitCase) -> Result<Emitted, String> {
     let _ = std::fs::remove_dir_all(&d);
     r?;
     Ok(Emitted { hir: h, tree })
+}
+
+/// the document of an "earlier revision": eight operations, models with long bodies, one adapter (zero-as-absent)
+pub fn earlier_revision() -> Value {
+    use serde_json::json;
+    let mut paths = serde_json::Map::new();
+    for (i, (p, verb)) in [("/accounts", "get"), ("/accounts", "post"), ("/accounts/{accountId}", "get"), ("/accounts/{accountId}", "delete"), ("/ledgers", "get"), ("/ledgers/{ledgerId}/entries", "get"), ("/ledgers/{ledgerId}/entries", "post"), ("/reports", "get")].iter().enumerate() {
+        let mut op = json!({"operationId": format!("earlierOperation{i}"), "summary": "an operation of the earlier revision with a long enough description to make the file longer than most",
+            "parameters": [{"name": "page", "in": "query", "schema": {"type": "integer"}}, {"name": "page_size", "in": "query", "schema": {"type": "integer"}}, {"name": "X-Trace", "in": "header", "schema": {"type": "string"}}],
+            "responses": {"200": {"description": "ok", "content": {"application/json": {"schema": {"$ref": "#/components/schemas/Account"}}}}}});
+        for ph in ["accountId", "ledgerId"] { if p.contains(&format!("{{{ph}}}")) { op["parameters"].as_array_mut().unwrap().push(json!({"name": ph, "in": "path", "required": true, "schema": {"type": "string"}})); } }
+        paths.entry(p.to_string()).or_insert_with(|| json!({})).as_object_mut().unwrap().insert(verb.to_string(), op);
+    }
+    json!({"openapi": "3.0.0", "info": {"title": "earlier", "version": "0"}, "paths": paths,
+        "servers": [{"url": "https://earlier.example.com"}],
+        "components": {"schemas": {
+            "Account": {"type": "object", "required": ["id"], "properties": {"id": {"type": "string"}, "balance": {"type": "integer", "x-null-as-zero": true}, "owner": {"$ref": "#/components/schemas/Owner"}, "tags": {"type": "array", "items": {"type": "string"}}, "note": {"type": "string"}, "opened": {"type": "string", "format": "date"}}},
+            "Owner": {"type": "object", "properties": {"name": {"type": "string"}, "email": {"type": "string"}, "kind": {"$ref": "#/components/schemas/Kind"}}},
+            "Kind": {"type": "string", "enum": ["person", "company", "trust"]}}}})
 }
 
 fn case_text(c: &EmitCase) -> String { format!("(case {} (doc {}))", c.label, quote(&serde_json::to_string(&c.doc).unwrap_or_default().chars().take(60000).collect::<String>())) }
